@@ -542,7 +542,11 @@ Inductive op :=
 | CancelMsg (l : list Z)        (* control message cancel_tasks *)
 | Unsched (l : list (Z * list slot))   (* AGENT_UNSCHEDULE_PUBSUB message(s): tasks with their slots *)
 | NamedEnv (e : Z)              (* control message register_named_env *)
-| Iterate (strat : list (list (Z * bool))).
+| Iterate (strat : list (list (Z * bool)))
+(* the two halves of BaseComponent._control_cb for cancel_tasks, when the
+   scheduler loop runs between them (CancelMsg = CancelReg; CancelQ at once) *)
+| CancelReg (l : list Z)        (* with self._cancel_lock: self._cancel_list += uids *)
+| CancelQ (l : list Z).         (* control_cb: the CANCEL message is put on the scheduler queue *)
 
 (* pending queues live outside sstate *)
 Record world := mkW { st : sstate; q_sched : list qitem; q_unsched : list (Z * list slot); log : list event }.
@@ -579,6 +583,10 @@ Definition step (c : cfg) (w : world) (o : op) : option world :=
       | None => None
       | Some (s', evs) => Some (mkW s' [] [] (log w ++ evs))
       end
+  | CancelReg us =>
+      Some (mkW (set_cl (st w) (cancel_list (st w) ++ us)) (q_sched w) (q_unsched w) (log w))
+  | CancelQ us =>
+      Some (mkW (st w) (q_sched w ++ [QCancel us]) (q_unsched w) (log w))
   end.
 
 Fixpoint run (c : cfg) (w : world) (ops : list op) : option world :=
